@@ -9,6 +9,7 @@ import (
 	"fmt"
 	"sort"
 	"strings"
+	"testing/synctest"
 	"time"
 
 	"github.com/free5gc/go-upf/internal/pfcp"
@@ -34,24 +35,24 @@ type MPDR struct {
 }
 
 type MSess struct {
-	UP, CP  uint64
-	Node    string
-	SMF     int
-	Slot    int
-	Live    bool
-	Inc     int
-	Req     map[RuleRef]bool
-	Ever    map[RuleRef]bool
-	Intent  map[RuleRef]*RuleIntent
-	PDR     map[uint16]*MPDR
-	URR     map[uint32]*MURR
-	URRInc  map[uint32]int
-	Buf     map[uint16][]uint64
-	Dropped map[uint16]int
-	BornAt  int
+	UP, CP   uint64
+	Node     string
+	SMF      int
+	Slot     int
+	Live     bool
+	Inc      int
+	Req      map[RuleRef]bool
+	Ever     map[RuleRef]bool
+	Intent   map[RuleRef]*RuleIntent
+	PDR      map[uint16]*MPDR
+	URR      map[uint32]*MURR
+	URRInc   map[uint32]int
+	Buf      map[uint16][]uint64
+	Dropped  map[uint16]int
+	BornAt   int
 	BufTaint bool
 	Orphans  map[uint16]bool
-	Stale    map[uint16]int // packets queued for a PDR id whose PDR was removed since
+	Stale    map[uint16]int  // packets queued for a PDR id whose PDR was removed since
 	PDRTaint map[uint16]bool // a packet was queued while stale ones may fill the queue: contents unknown
 }
 
@@ -78,20 +79,20 @@ type PendK struct {
 }
 
 type Model struct {
-	s       *Sim
-	nodes   map[string]*MNode
-	sess    map[uint64]*MSess
-	ended   []*MSess
-	incs    map[uint64]int
-	rx      map[string]*MRx
-	recov   []byte
-	pktTag  uint64
-	pendK   []*PendK
-	bufEmit map[uint64]*bufPkt
-	ups     []*UpReq
-	nDeliv  int
-	bufCap  int
-	curCtx  *StepCtx
+	s          *Sim
+	nodes      map[string]*MNode
+	sess       map[uint64]*MSess
+	ended      []*MSess
+	incs       map[uint64]int
+	rx         map[string]*MRx
+	recov      []byte
+	pktTag     uint64
+	pendK      []*PendK
+	bufEmit    map[uint64]*bufPkt
+	ups        []*UpReq
+	nDeliv     int
+	bufCap     int
+	curCtx     *StepCtx
 	perioTaint bool // a URR was registered twice / its trigger changed: outside C15's quantifier
 }
 
@@ -156,19 +157,19 @@ type StepCtx struct {
 	post  pfcp.VerifState
 
 	// filled by the model
-	Dup      bool
-	Target   *MSess // session addressed by the delivered message (if live)
-	Ended    []*MSess
-	Resp     []*PMsg
-	RespPkt  []*OutPkt
-	Foreign  bool // activity not caused by the stimulus happened inside the step
-	Matched  *UpReq
+	Dup       bool
+	Target    *MSess // session addressed by the delivered message (if live)
+	Ended     []*MSess
+	Resp      []*PMsg
+	RespPkt   []*OutPkt
+	Foreign   bool // activity not caused by the stimulus happened inside the step
+	Matched   *UpReq
 	Ambiguous bool
-	newUps   []*UpReq
-	bufNotes []*bufPkt
-	expTermr map[uint32]string
-	refVia   map[uint32]string
-	skipURR  map[uint32]bool
+	newUps    []*UpReq
+	bufNotes  []*bufPkt
+	expTermr  map[uint32]string
+	refVia    map[uint32]string
+	skipURR   map[uint32]bool
 }
 
 func (s *Sim) projections() map[uint64]string {
@@ -184,13 +185,13 @@ func (s *Sim) projections() map[uint64]string {
 func (s *Sim) mstep(kind string, dg *Dgram, f func()) {
 	s.stepNo++
 	s.stepA.Store(int64(s.stepNo))
+	// what a detached producer causes during the clock bump belongs to this step
+	n4From, gtpuFrom, reqFrom, repFrom := s.n4.outLen(), s.gtpu.outLen(), len(s.kern.reqLog), len(s.kern.reports)
 	s.bump()
+	synctest.Wait()
 	ctx := &StepCtx{Kind: kind, Dg: dg, t0: s.since()}
 	s.model.curCtx = ctx
-	ctx.n4From = s.n4.outLen()
-	ctx.gtpuFrom = s.gtpu.outLen()
-	ctx.reqFrom = len(s.kern.reqLog)
-	ctx.repFrom = len(s.kern.reports)
+	ctx.n4From, ctx.gtpuFrom, ctx.reqFrom, ctx.repFrom = n4From, gtpuFrom, reqFrom, repFrom
 	ctx.pre = s.peek()
 	ctx.preProj = s.projections()
 	ctx.preGroups = s.perioGroups()
@@ -318,6 +319,17 @@ func (s *Sim) endStep(ctx *StepCtx) {
 func (m *Model) observeUps(ctx *StepCtx) {
 	s := m.s
 	W := time.Duration(s.cfg.RetransMs) * time.Millisecond
+	defer func() {
+		// an answer injected in the middle of an event-loop turn sat in the socket buffer
+		// until the turn ended: a retransmission in between is legitimate; from the end of
+		// the step on the request counts as answered
+		for _, u := range m.ups {
+			if u.MidAns {
+				u.MidAns = false
+				u.Answered = true
+			}
+		}
+	}()
 	for _, o := range ctx.N4 {
 		if len(o.B) < 2 || !isRequestType(o.B[1]) {
 			continue
